@@ -167,7 +167,7 @@ check("C01", "translation_validation",
       "tanh/sigmoid) make a case inconclusive; inputs are sampled.",
       "translation validation by executing the emitted artefact in an executable hardware model", "DESIGN.md 4/C01")
 
-check("C08", "runtime_contract",
+check("C08", "exploration",
       "Contract on every return value of the real encode_weight_and_scale_tensor (wrapped from the harness): the tensor is parsed by its recorded ranges - key set = (core, slice) "
       "assignment, 16-byte alignment, stream order, disjointness, transfer size covers the range, double-buffer sizes bound the slices of their parity; the scale section must hold one "
       "10-byte record per assigned channel equal to the reference derivation; the weight section is decoded with the frozen MLW decoder and must equal the zero-point-corrected weights "
